@@ -63,7 +63,9 @@ fn page_of(m: &M) -> &'static Page {
 }
 
 fn resolve_str(seed: &StrSeed, page: &Page) -> String {
-    let rep: Vec<char> = cpref::repertoire(page).into_iter().filter(|c| *c != '\0').collect();
+    // (U+0000 included: the strings are length-prefixed, a NUL is a character
+    // like any other, also in the last position)
+    let rep: Vec<char> = cpref::repertoire(page);
     let mut s = String::new();
     // every 8th string starts like a byte-order mark in its encoded form
     if seed.chars.first().map(|c| c % 8 == 3).unwrap_or(false) {
@@ -87,6 +89,13 @@ fn resolve_str(seed: &StrSeed, page: &Page) -> String {
             s.push_str(&pattern);
             n += per;
         }
+    }
+    // a class of strings that end in, start with or consist of NULs
+    match seed.chars.first().map(|c| c % 32) {
+        Some(19) => s.push('\0'),
+        Some(20) => s.insert(0, '\0'),
+        Some(21) => s = "\0".to_string(),
+        _ => {}
     }
     if seed.unrepresentable {
         for c in ['中', 'é', '😀', '\u{80}'] {
